@@ -21,22 +21,30 @@ COQ_TARGETS = ["Props/C11.vo", "Model/C11Check.vo", "Model/Harness.vo"]
 THEOREM_FILES = ["Props/C11.v"]
 COQ_IMPORTS = ("From Coq Require Import List ZArith Bool QArith Qcanon.\n"
                "From PV Require Import Base.Index Np.Array Model.Sparse Model.Repr Model.Harness Model.C11Check.\n")
-RULE = ("count tensors <= 4x3x2 (2- and 3-way; random fill, an emptied slice, all-zero fibres), dense and sparse, ranks 1-2, integer "
-        "guesses optionally with an all-zero row, algorithms mu/pdnr/pqnr x option sets (maxinneriters, precompinds, inexact, "
-        "lbfgsMem, kappa), maxiters 1..3 run from the same guess; plus op mu_model: the executable Coq MU model (exact rational "
-        "division) run side by side on 2-way/3-way inputs, 1-2 outer and 1-2 inner iterations, guesses with a zero row; non-trivial = data not all zero; distinct = distinct (op,args)")
+RULE = ("count tensors <= 4x3x2 (2- to 4-way; random fill, an emptied slice, all-zero fibres, singleton modes), dense and sparse, ranks 1-3, "
+        "integer guesses optionally with an all-zero row, algorithms mu/pdnr/pqnr x option sets (maxinneriters, precompinds, inexact, "
+        "lbfgsMem, kappa), maxiters 1..3 run from the same guess; op overspec: over-specified rank on rank-1 / empty-slice counts, "
+        "fractional guesses, pdnr+pqnr, maxiters 1 and 2, dense AND sparse holder (dead components); op zero_row: MU from a guess with an "
+        "all-zero row over observed counts (objective -inf, infinities compared explicitly); op phi_sp: calculate_pi/calculate_phi on "
+        "sparse and dense holders vs the Qc models; op mu_model: the executable Coq MU model run side by side; data, guess and aliasing "
+        "of the result observed for purity; non-trivial = data not all zero; distinct = distinct (op,args)")
 CORRESPONDENCE_ONLY = ["Newton / L-BFGS search directions and the line search (oracles): only non-negativity of the projected step is proved",
                        "logarithm in the objective (math.log recomputation in the harness)",
                        "likelihood improvement over the starting guess: sampled, not proved",
-                       "dense (to_tenmat) vs sparse index pairing of data with model values inside tt_loglikelihood: by the objective comparison"]
+                       "sparse branch of tt_loglikelihood (gather of factor rows at the stored subscripts): by the objective comparison "
+                       "(the dense branch's pairing is C11_objective_pairing, the sparse Phi is C11_phi_sparse)",
+                       "PDNR/PQNR bookkeeping and purity (data / guess unchanged, result not aliased): observed on every run"]
 ASSUMPTIONS = ["model entries converted exactly float -> rational (signs are exact)",
-               "objective compared at 1e-9 relative; -inf objectives (a positive count where the model is exactly 0) must agree as -inf",
-               "A-23 (pdnr/pqnr write 1e-8 into zero rows of the caller's guess) is C05's and is not checked here",
+               "objective compared at 1e-9 relative; -inf objectives (a positive count where the model is exactly 0) must agree as -inf; "
+               "+inf / nan objectives are failures",
+               "runs that abort with the known C11-F1 assertion are skipped in ops pqnr_result / overspec (reported by pqnr_completes)",
                "theorems over an abstract ordered commutative ring given by Section hypotheses; division, Newton and L-BFGS steps are oracles"]
 EXPLANATION = ("op mu_model ties the model the theorems are about to the code: its final state denotes the returned tensor and its "
                "KKT trace equals the reported one at 1e-9. C11_mu_nonneg: executable model of the MU sweep keeps weights/factors non-negative for any division oracle that maps "
                "non-negative inputs to non-negative outputs; C11_proj_nonneg: the projected step is non-negative for every direction; "
-               "C11_mass_identity: sum of all model entries = sum_r lambda_r prod_n colsum_n(r) (any ring, shape, rank); C11_bookkeeping: "
+               "C11_mass_identity / _factor0 / _factor0_dead: sum of all model entries = sum(factor_0) after the final normalisation, also with "
+               "dead components; C11_objective_pairing: the dense double loop over to_tenmat([1]) of data and model = the sum over all "
+               "subscripts; C11_phi_sparse: sparse Pi/Phi = the dense definition on den_sp; C11_bookkeeping: "
                "KKT list length = iterations performed <= maxiters, entries >= 0.")
 
 
@@ -259,7 +267,8 @@ def run_impl(c):
     a = c.args
     if c.op == "phi_sp":
         import random
-        from pyttb import cp_apr as apr
+        import importlib
+        apr = importlib.import_module("pyttb.cp_apr")
         try:
             subs, vals = tgen.dense_to_sparse(a["shape"], a["data"], random.Random(a["sseed"]), a["order"])
             S = tgen.mk_sptensor(ttb, np, a["shape"], subs, vals)
